@@ -16,12 +16,12 @@ META = dict(
         quick="(a) ITS built by ITSConstruction from every reactant/product pair on n<=3 shared atoms (orders per side "
               "symbolic in {0,1,1.5,2,3}, element in {C,H,N,O}, hcount 0..2, charge -1..1), with a solver-chosen "
               "renumbering; (b) synthetic ITS graphs on all connected and disconnected shapes with 4 nodes plus the paths "
-              "P5, P6, a 5-ring, and 4-ring/triangle/5-ring with pendant atoms, order pairs symbolic, radii 0..3",
+              "P5, P6, a 5-ring, and 4-ring/triangle/5-ring with pendant atoms, order pairs symbolic, radii 0..3; a stream of two short-lived ITS graphs of equal size followed by an in-place edit (4-chain, 4-ring)",
         thorough="(a) n=4; (b) all shapes with 5 nodes, P7, 6-ring, radii 0..3",
     ),
     outside=["rsmi_to_its(core=True) front end (RDKit)", "get_rc(disconnected=True / keep_mtg=True) variants",
              "graphs beyond the bounds"],
-    stubs=[],
+    stubs=["context_stream harness: module attribute `id` of its_decompose / radius_expand replaced by vf/idstub.py (addresses recycled as eagerly as CPython's contract allows)"],
     assumptions=["synthetic ITS graphs carry order pairs with at least one positive side and a consistent standard_order"],
     rule="one evaluation = one symbolic path (which bonds change / which atoms are hydrogen); non-trivial = the centre is "
          "non-empty and smaller than the ITS",
@@ -138,7 +138,64 @@ def h_context(E, n, edges, kmax=3):
     E.observe((sorted(rc.nodes), sorted(prev.nodes)))
 
 
-HARNESSES = {"rc_of_reaction": h_rc_of_reaction, "context": h_context}
+def h_context_stream(E, n, edges):
+    """a stream of short-lived ITS graphs (as in `for r in corpus: extract_k(rsmi_to_its(r), k)`): the first one is
+    analysed and dropped, the second one - same size, other bonds change - must be analysed on its own; then it is edited in
+    place and analysed again.  id() inside the analysed modules recycles addresses as eagerly as CPython allows."""
+    import gc
+
+    import importlib
+
+    from vf.idstub import recycled_ids
+
+    dec = importlib.import_module("synkit.Graph.ITS.its_decompose")
+    rex = importlib.import_module("synkit.Graph.Context.radius_expand")
+
+    edges = [tuple(e) for e in edges]
+    with recycled_ids(dec, rex):
+        first, _ = synthetic_its(E, n, edges, hmax=0)
+        for k in (0, 1):
+            rex.RadiusExpand.extract_k(first, k)
+        del first
+        gc.collect()
+        # the second graph: same atoms and bonds, its own order pairs
+        its = nx.Graph()
+        oo = {}
+        for v in range(1, n + 1):
+            its.add_node(v, element="C", aromatic=False, hcount=0, charge=0, atom_map=v, neighbors=["", ""],
+                         typesGH=(("C", False, 0, 0, ["", ""]), ("C", False, 0, 0, ["", ""])))
+        for (u, v) in edges:
+            og = E.choice("2oG%d_%d" % (u, v), [1, 2])
+            oh = E.choice("2oH%d_%d" % (u, v), [1, 2])
+            oo[u, v] = oo[v, u] = (og, oh)
+            its.add_edge(u, v, order=(og, oh), standard_order=og - oh)
+        dist = dict(nx.all_pairs_shortest_path_length(its))
+
+        def judge(tag):
+            rc = dec.get_rc(its)
+            E.check(rc_oracle_bad(its, rc, lambda a, b: oo[a, b]), "centre-is-the-changed-bonds", dict(stage=tag))
+            bad = []
+            for k in (0, 1, 2):
+                K = rex.RadiusExpand.extract_k(its, k)
+                ball = {v for v in its.nodes if any(dist[c].get(v, 10**9) <= k for c in rc.nodes)}
+                bad.append(set(K.nodes) != ball)
+            E.check(OR(bad), "context-k-is-the-radius-k-ball", dict(stage=tag, centre=sorted(rc.nodes)))
+            return rc
+
+        rc = judge("second graph of the stream")
+        # in-place edit: the first bond flips between changed and unchanged, sizes stay the same
+        (u, v) = edges[0]
+        og, oh = oo[u, v]
+        new = (og, 3 - oh)
+        oo[u, v] = oo[v, u] = new
+        its[u][v]["order"] = new
+        its[u][v]["standard_order"] = new[0] - new[1]
+        judge("after an in-place edit")
+    E.note(nontrivial=rc.number_of_nodes() > 0)
+    E.observe(sorted(rc.nodes))
+
+
+HARNESSES = {"rc_of_reaction": h_rc_of_reaction, "context": h_context, "context_stream": h_context_stream}
 
 
 def shards(tier, seed):
@@ -165,4 +222,6 @@ def shards(tier, seed):
         fams.append((7, [[1, 2], [2, 3], [3, 4], [4, 5], [1, 5], [5, 6], [3, 7]]))
     for n, es in fams:
         sh.append(dict(h="context", params=dict(n=n, edges=es)))
+    sh.append(dict(h="context_stream", params=dict(n=4, edges=[[1, 2], [2, 3], [3, 4]])))
+    sh.append(dict(h="context_stream", params=dict(n=4, edges=[[1, 2], [2, 3], [3, 4], [1, 4]])))
     return sh
